@@ -3,6 +3,8 @@ Serves C01 C02 C03 C07 C14 C16(part) C18."""
 import json, os, random, time
 from common import *
 
+LENS = 'log'
+TRACE_MODULE = 'Trace_IggyLog'
 MSG = 61  # bytes accounted per 16-byte-payload message (45 + payload)
 
 # configuration matrix (the "every storage configuration" quantifier); segment sizes in messages of 16-byte payloads
@@ -10,7 +12,7 @@ def cfgs_for(family, tier):
     base = dict(cache='off', cache_indexes=True, fsync=False, confirmation='wait')
     def c(thr, seg, **kw):
         d = dict(base); d.update(save_threshold=thr, segment_bytes=seg * MSG); d.update(kw); return d
-    if family in ('layout', 'dedup', 'offsets'):
+    if family in ('layout', 'dedup', 'offsets', 'grpoffsets'):
         m = [c(1000, 0), c(2, 0), c(1, 2), c(3, 4, cache_indexes=False), c(2, 3, cache='large'),
              c(1000, 2, fsync=True), c(1, 0, cache='large', cache_indexes=False), c(3, 2)]
         if tier == 'thorough':
@@ -32,13 +34,18 @@ GEN = {
                                Ops='{"append","flush","bg_save","restart","purge"}'),
                    parts=1, whos=['c1'], expiry=0),
     'retention': dict(consts=dict(NParts=1, KeySet='{"c1"}', GroupKeys='{}', DedupOn='FALSE', IdSet='{0}', MaxLen=6, MaxBatch=2,
-                                  MaxNow=2, ExpirySet='{0,1}', Threshold=1, SegCap=2,
+                                  MaxNow=3, ExpirySet='{0,1,3}', Threshold=1, SegCap=2,
                                   Ops='{"append","restart","tick","set_expiry","retention"}'),
                       parts=1, whos=['c1'], expiry=None),
     'dedup': dict(consts=dict(NParts=1, KeySet='{"c1"}', GroupKeys='{}', DedupOn='TRUE', IdSet='{0,1,2}', MaxLen=5, MaxBatch=3,
                               MaxNow=0, ExpirySet='{0}', Threshold=2, SegCap=3,
                               Ops='{"append","flush","restart"}'),
                   parts=1, whos=['c1'], expiry=0, dedup=True),
+    # group life cycle with stored offsets, small alphabet so that the path cover is complete (seeded change C07_3)
+    'grpoffsets': dict(consts=dict(NParts=1, KeySet='{"g1"}', GroupKeys='{"g1"}', DedupOn='FALSE', IdSet='{0}', MaxLen=2,
+                                   MaxBatch=1, MaxNow=0, ExpirySet='{0}', Threshold=1000, SegCap=1000,
+                                   Ops='{"append","store","group","restart"}'),
+                       parts=1, whos=['c1', 'g1', 'h1'], expiry=0),
     'offsets': dict(consts=dict(NParts=2, KeySet='{"c1","c2","g1"}', GroupKeys='{"g1"}', DedupOn='FALSE', IdSet='{0}', MaxLen=3,
                                 MaxBatch=2, MaxNow=0, ExpirySet='{0}', Threshold=1000, SegCap=1000,
                                 Ops='{"append","store","del_offset","poll_next","purge","restart","group"}'),
@@ -53,7 +60,7 @@ def mc_family(family, tier, wd):
     """Exhaustive TLC run of the bounded instance of `family` (bigger constants in the thorough tier)."""
     g = GEN[family]
     consts = dict(g['consts'])
-    consts['MaxOps'] = {'layout': 7, 'retention': 8, 'dedup': 5, 'offsets': 5}[family] + (2 if tier == 'thorough' else 0)
+    consts['MaxOps'] = {'layout': 7, 'retention': 8, 'dedup': 5, 'offsets': 5, 'grpoffsets': 6}[family] + (2 if tier == 'thorough' else 0)
     if tier == 'thorough':
         consts['MaxLen'] = consts['MaxLen'] + 2
     cfg = os.path.join(wd, f'MC_{family}.cfg')
@@ -69,7 +76,7 @@ def gen_scripts(family, tier, wd, seed, rnd):
     """TLC-generated input scripts: exhaustive path cover to a small depth plus simulated random walks."""
     g = GEN[family]
     out = []
-    depth = {'layout': 4, 'retention': 5, 'dedup': 3, 'offsets': 3}[family] + (1 if tier == 'thorough' else 0)
+    depth = {'layout': 4, 'retention': 5, 'dedup': 3, 'offsets': 3, 'grpoffsets': 4}[family] + (1 if tier == 'thorough' else 0)
     consts = dict(g['consts']); consts['MaxOps'] = depth
     if family == 'dedup' and tier == 'quick':
         consts['MaxBatch'] = 2     # 3 ids x batches <= 3 gives 39 sends per step; the walks below keep batches of 3
@@ -81,7 +88,7 @@ def gen_scripts(family, tier, wd, seed, rnd):
     paths = [s for s in paths if len(s) >= 2]
     # simulated walks (deeper), guards respected
     consts2 = dict(g['consts']); consts2['MaxOps'] = 14 if tier == 'quick' else 24
-    if family != 'offsets':
+    if family not in ('offsets', 'grpoffsets'):
         consts2['MaxLen'] = 10 if tier == 'quick' else 14
     cfg2 = os.path.join(wd, f'Sim_{family}.cfg')
     write_cfg(cfg2, 'MCSpec', consts2, invariants=['EmitScript'], constraint='Bounded')
@@ -102,7 +109,7 @@ def to_scenario(sid, family, script, cfg, seed):
             op['ids'] = list(op['ids'])
         steps.append(op)
     if expiry is None:
-        expiry = 1 if (seed % 2) else 0
+        expiry = (0, 1, 3)[seed % 3]
     return dict(id=sid, cfg=cfg, seed=seed, parts=g['parts'], expiry=expiry,
                 payload_len=16 if cfg.get('segment_bytes', 0) else 0, sweep='full', whos=g['whos'], steps=steps,
                 family=family)
@@ -159,6 +166,8 @@ def build_scenarios(families, tier, wd, seed):
         paths, walks = gen_scripts(fam, tier, wd, seed, rnd)
         cfgs = cfgs_for(fam, tier)
         budget = {'quick': 150, 'thorough': 4000}[tier]
+        if fam == 'grpoffsets':
+            budget = max(budget, 700)
         if len(paths) > budget:
             paths = rnd.sample(paths, budget)
         gen_stats[fam] = dict(path_cover_scripts=len(paths), simulated_walks=len(walks), configs=len(cfgs))
@@ -206,7 +215,7 @@ FAMILIES = {
     'C01': ['layout', 'retention', 'dedup'],
     'C02': ['layout', 'retention'],
     'C03': ['layout', 'offsets', 'retention', 'dedup'],
-    'C07': ['offsets'],
+    'C07': ['offsets', 'grpoffsets'],
     'C14': ['retention'],
     'C18': ['dedup'],
 }
@@ -288,3 +297,15 @@ def nontrivial(prop, scn, trace_events):
                     seen.add(i)
         return False
     return True
+
+RULES = {
+    'C01': 'scenario contains an append after a restart, a retention pass or a purge',
+    'C02': 'at some step the partition has >= 2 segments or a segment partly on disk and partly in the unsaved buffer',
+    'C03': 'a restart taken while a buffer was unsaved or >= 2 segments existed',
+    'C07': 'store/poll_next steps by >= 2 different identities',
+    'C14': 'a retention pass that changed the segment list',
+    'C18': 'a message id repeated within the scenario',
+}
+ASSUMPTIONS = ['segment layout, cache window and server-assigned ids/timestamps are read off the recorded projection '
+               '(implementation freedom), everything else is predicted by the specification',
+               'wait-confirmation only in this lens; no-wait and concurrency are C12']
